@@ -176,6 +176,7 @@ static void run_message(vh_ctx_t * v, msg_t * m, int via_flush, const char * how
     if (via_flush) { if (m->text.len) vh_input(v, m->text.p, m->text.len); vh_input(v, NULL, 0); }
     else { vh_buf_t t = { 0, 0, 0 }; vh_buf_add(&t, m->text.p, m->text.len); vh_buf_adds(&t, (via_flush & 2) ? "\r\n" : "\n"); vh_input(v, t.p, t.len); vh_buf_free(&t); }
     vh_eval(1);
+    if (v->nsrq) vh_count("status.service_request_raised_during_the_message", 1);
     key = classify(v->out.p ? v->out.p : "", v->out.len, m->expect.p ? m->expect.p : "", m->expect.len, v->nflush, m->responders, !v->write_after_flush);
     if (key) vh_violation(key, "message \"%s\" (%s; unit kinds %s): wrote \"%s\" with %u flush(es), expected \"%s\" with %d", vh_esc(m->text.p, m->text.len), how, vh_buf_cstr(&m->shape),
                           vh_esc(v->out.p, v->out.len), v->nflush, vh_esc(m->expect.p, m->expect.len), m->responders ? 1 : 0);
@@ -207,6 +208,15 @@ static void nested_end(const msg_t * m) {
     vh_ctx_free(vB); vB = NULL;
 }
 
+/* the status system is enabled the way an application polling by service request has it: errors and failing units of the message then
+ * raise MSS and call the control callback in the middle of the response - framing and the single flush must not depend on that */
+static int g_status_on;
+static vh_ctx_t * new_ctx(void) {
+    vh_ctx_t * v = vh_ctx_new(cmds, 700, 8, 64); v->log_enabled = 0;
+    if (g_status_on) { SCPI_RegSet(v->ctx, SCPI_REG_ESE, 0xFF); SCPI_RegSet(v->ctx, SCPI_REG_SRE, 0xBF); SCPI_RegSet(v->ctx, SCPI_REG_OPERE, 0xFFFF); SCPI_RegSet(v->ctx, SCPI_REG_QUESE, 0xFFFF); }
+    return v;
+}
+
 static uint64_t p0_count(int thorough) {
 #if VH_ASAN
     return vh_scaled(thorough ? 600000 : 60000);
@@ -218,15 +228,16 @@ static void p0_run(uint64_t idx, vh_rng_t * rng) {
     static msg_t m, prev;
     vh_ctx_t * v;
     gen_message(rng, &m);
+    g_status_on = (idx % 3 == 1);
     vh_case_desc("message \"%s\"", vh_esc(m.text.p, m.text.len));
     /* 1. fresh context */
-    v = vh_ctx_new(cmds, 700, 8, 64); v->log_enabled = 0;
+    v = new_ctx();
     run_message(v, &m, (idx % 5 == 0) ? 1 : 0, "fresh context");
     vh_ctx_free(v);
     /* 1b. the same while every callback runs the parser of another context (nothing in the library is shared between contexts) */
     if (idx % 4 == 2) {
         nested_begin(idx);
-        v = vh_ctx_new(cmds, 700, 8, 64); v->log_enabled = 0;
+        v = new_ctx();
         run_message(v, &m, 0, "fresh context, callbacks forward a query to a second context");
         vh_ctx_free(v);
         nested_end(&m);
@@ -238,7 +249,7 @@ static void p0_run(uint64_t idx, vh_rng_t * rng) {
         memset(&m, 0, sizeof m);
         gen_message(&r2, &m); /* previous message */
         prev = m; m = keep;
-        v = vh_ctx_new(cmds, 700, 8, 64); v->log_enabled = 0;
+        v = new_ctx();
         run_message(v, &prev, 0, "as previous message");
         memcpy(sigs, keep_sigs, sizeof sigs);
         run_message(v, &m, 0, "after a previous message");
@@ -269,7 +280,7 @@ static void p0_run(uint64_t idx, vh_rng_t * rng) {
 
 int main(int argc, char ** argv) {
     static const vh_phase_t phases[] = { { "messages", p0_count, p0_run } };
-    vh_decoy_enable(7); vh_require("decoy.messages_run_on_a_second_context"); vh_require("items.long_ascii_array"); vh_require("nested.other_context_parsed_before_first_result"); vh_require("nested.other_context_parsed_on_handler_entry"); vh_require("msg.with_response"); vh_require("msg.nothing_responds"); vh_require("msg.two_or_more_responders");
+    vh_decoy_enable(7); vh_require("decoy.messages_run_on_a_second_context"); vh_require("items.long_ascii_array"); vh_require("status.service_request_raised_during_the_message"); vh_require("nested.other_context_parsed_before_first_result"); vh_require("nested.other_context_parsed_on_handler_entry"); vh_require("msg.with_response"); vh_require("msg.nothing_responds"); vh_require("msg.two_or_more_responders");
     vh_require("shape.responder_then_silent_unit"); vh_require("shape.silent_unit_then_responder"); vh_require("shape.fails_after_partial_output");
     vh_require("shape.query_emitting_nothing"); vh_require("shape.query_failing_before_output"); vh_require("shape.single_partial_failure");
     return vh_main(argc, argv, "C06", phases, 1);
